@@ -13,7 +13,7 @@ from mpilot.libraries.eems.exceptions import (
     DuplicateRawValues,
 )
 from mpilot.libraries.eems.mixins import SameArrayShapeMixin
-from mpilot.utils import insure_fuzzy
+from mpilot.utils import insure_fuzzy, make_masked
 
 
 class Copy(Command):
@@ -309,7 +309,7 @@ class NormalizeCat(Command):
         )
 
         for raw, normal in zip(raw_values, normal_values):
-            result[arr.data == raw] = normal
+            result[numpy.ma.getdata(arr) == raw] = normal
 
         result.mask = numpy.ma.getmaskarray(arr).copy()
 
@@ -355,16 +355,16 @@ class NormalizeCurve(Command):
             b = prev_normal - m * prev_raw
 
             where_idx = numpy.where(
-                numpy.logical_and(arr.data > prev_raw, arr.data <= raw)
+                numpy.logical_and(numpy.ma.getdata(arr) > prev_raw, numpy.ma.getdata(arr) <= raw)
             )
 
-            result[where_idx] = arr.data[where_idx]
+            result[where_idx] = numpy.ma.getdata(arr)[where_idx]
             result[where_idx] *= m
             result[where_idx] += b
 
         # For raw values greater than the highest raw value, set them to the corresponding normal value
         result[arr > value_pairs[-1][0]] = value_pairs[-1][1]
-        result.mask = arr.mask.copy()
+        result.mask = numpy.ma.getmaskarray(arr).copy()
 
         return result
 
@@ -381,7 +381,7 @@ class NormalizeMeanToMid(NormalizeCurve):
     output = params.DataParameter()
 
     def execute(self, **kwargs):
-        arr = kwargs["InFieldName"].result
+        arr = make_masked(kwargs["InFieldName"].result)
         ignore_zeros = kwargs["IgnoreZeros"]
 
         low_value = arr.min()
@@ -455,15 +455,15 @@ class NormalizeCurveZScore(Command):
             b = prev_normal - m * prev_raw
 
             where_idx = numpy.where(
-                numpy.logical_and(arr.data > prev_raw, arr.data <= raw)
+                numpy.logical_and(numpy.ma.getdata(arr) > prev_raw, numpy.ma.getdata(arr) <= raw)
             )
-            result[where_idx] = arr.data[where_idx]
+            result[where_idx] = numpy.ma.getdata(arr)[where_idx]
             result[where_idx] *= m
             result[where_idx] += b
 
         # For raw values greater than the highest raw value, set them to the corresponding normal value
         result[arr > value_pairs[-1][0]] = value_pairs[-1][1]
-        result.mask = arr.mask.copy()
+        result.mask = numpy.ma.getmaskarray(arr).copy()
 
         return result
 
